@@ -7,7 +7,8 @@ from harness.common import Driver, MachineryError, Run, guarded, hx, sandbox, sn
 
 RULE = ("reference-encoder metafiles (v1 multi/single, v2, hybrid) whose name and path "
         "components are drawn from a hostile alphabet ('..', '.', '', absolute paths, "
-        "'a/../../b', deep '..' chains, embedded separators), with matching candidate files "
+        "'a/../../b', deep '..' chains, embedded separators, backslashes), also two entries that "
+        "normalise to one target; with matching candidate files "
         "in the search directory so that the copy is attempted; the run is fenced with an "
         "audit hook (any mutating operation outside the destination is recorded and refused) "
         "and everything outside the destination is snapshotted before/after; distinct by "
@@ -22,7 +23,7 @@ def hostile_alphabet(box):
     return ["..", ".", "", outside, outside + "/x", "a/../../b", "../" * 3 + "up", "../../..",
             "../" * 12 + "deep", "ok", "sub", "a/b", "/", "..//..", "./../x", "ok/..", "…",
             "../dest2", "../dest.bak", "../destX/y", "../../y/dest", "//" + box.lstrip("/"),
-            "..", "../dest"]
+            "..", "../dest", "..\\..\\created", "x\\..\\..\\..\\victim", "..\\byname", "\\", "..\\"]
 
 
 def gen_meta(rng, box):
@@ -37,6 +38,12 @@ def gen_meta(rng, box):
         last = rng.choice(["f%d.bin" % i, "f%d.bin" % i, "f%d.bin" % i, "..", ""])
         data = bytes([65 + i]) * rng.choice([0, 10, PL, PL + 7])
         files.append((tuple(comps + [last]), data))
+    if not single and files and files[0][0][-1] not in ("..", "") and rng.random() < 0.15:
+        # two entries that normalise to ONE target, the later one longer: the second placement
+        # overwrites the first inside the destination - and must touch nothing else
+        first, data = files[0]
+        via = rng.choice([("ok/..",), ("sub", ".."), (".",), ("a/b", "../.."), ("",)])
+        files = [files[0], (first[:-1] + via + (first[-1],), data + b"+" * rng.choice([1, PL]))] + files[1:]
     if single:
         name = rng.choice([name, "../escape.bin", os.path.join(box, "outside", "abs.bin"), "s.bin"])
         files = [((name,), files[0][1])]
